@@ -11,6 +11,9 @@
 //       -1  construct the object from an RVALUE payload `LR(LPay(0))`; LPay's move constructor leaves its source
 //           with the recognisable value -7777.  (Without -1: default-initialisation into poisoned storage.)
 //           The second copy must be copied from the first, not built from the moved-from argument.
+//       -3  the payload's copy assignment throws part-way (write window left open: a torn object) whenever it runs
+//           OUTSIDE an exception handler.  lr_guarded assigns payloads only inside its two catch blocks (where
+//           std::current_exception() is set), so on the real code this never happens.
 //       -2  Mutex = std::timed_mutex instead of std::mutex (same lock/unlock events; the try_lock_shared_for /
 //           _until forms ignore their argument and must not touch the write mutex)
 // ops:  0 fid   modify(f_fid)        f_fid(x) = user_call(fid); x.write(x.read()*8+fid); user_call(fid+100)
@@ -21,6 +24,12 @@
 //       0 fid 2 the same modification issued from the destructor of a scope guard while an unrelated exception
 //               unwinds the stack (std::uncaught_exceptions() > 0 throughout): same trace as `0 fid`; a functor
 //               exception is carried out of the destructor by hand and re-raised after the unwinding
+//       6 s 1 ; 1 s   "refresh" a held handle: when shared_handle is move-assignable (it is not: the deleter holds
+//               a reference) the pair is executed as `h = lr.lock_shared();` at the second op and the first op
+//               does nothing; otherwise as written: release, then lock_shared into the same slot
+//       6 s 2   release the handle on a DIFFERENT OS thread than the one that took it (a helper std::thread that
+//               acts as the same logical thread for the scheduler): same trace as `6 s`; the decrement must hit
+//               the counter recorded in the handle, whoever runs the deleter
 //       1..4 s  lock_shared / try_lock_shared / try_lock_shared_for / try_lock_shared_until into slot s
 //       5 s     read once through the handle in slot s (returns the value)
 //       6 s     release the handle in slot s
@@ -41,7 +50,37 @@ struct LPay: vs::VPay {
     using vs::VPay::VPay;
     LPay() = default;
     LPay(const LPay&) = default;
-    LPay& operator=(const LPay&) = default;
+    static bool& assign_throws()
+    {
+        static bool b = false;
+        return b;
+    }
+    // copy assignment = VPay's (read window on the source, write window on the target); with cfg flag -3 it
+    // throws after opening the write window when no exception is being handled (never the case inside
+    // lr_guarded's catch blocks, the only places that assign payloads)
+    LPay& operator=(const LPay& o)
+    {
+        if (vs::active() && assign_throws() && !std::current_exception()) {
+            (void)o.read();
+            vs::S().visible(vs::K_WR_BEGIN, this);
+            if (readers > 0) vs::fault(this, 1);
+            if (dirty) vs::fault(this, 3);
+            dirty = true;
+            vs::S().emit(vs::K_WR_BEGIN, this, 0);
+            throw vs::VThrow{};
+        }
+        vs::VPay::operator=(static_cast<const vs::VPay&>(o));
+        return *this;
+    }
+    // destructive move assignment (never used by lr_guarded: its recovery handlers COPY from the other instance;
+    // moving would take the published value away from the readers): the source is overwritten with -7777
+    LPay& operator=(LPay&& o)
+    {
+        long x = o.read();
+        write(x);
+        o.write(-7777);
+        return *this;
+    }
     // destructive move: the source is left with a recognisable value (no events: moves only happen on the
     // driver thread, before the object exists)
     LPay(LPay&& o) noexcept: vs::VPay(o.v) { o.v = -7777; }
@@ -89,6 +128,16 @@ struct RvFunctor {
     }
 };
 
+// peeks at private state for final(): through SFINAE, so that the driver keeps compiling when a change renames
+// or restructures a member (the value is then reported as -12345 and the final-state line differs)
+template<class A> auto peek_atomic(const A& a, int) -> decltype((long)a.vs_peek()) { return (long)a.vs_peek(); }
+template<class A> long peek_atomic(const A&, long) { return -12345; }
+template<class A> auto max_atomic(const A& a, int) -> decltype((long)a.vs_peek())
+{
+    return (long)std::numeric_limits<decltype(a.vs_peek())>::max();
+}
+template<class A> long max_atomic(const A&, long) { return -12345; }
+
 // the component, for one mutex type
 template<class M>
 struct LRImpl {
@@ -98,7 +147,14 @@ struct LRImpl {
     LR* lrp;
     // the deleter holds a reference: handles cannot be move-assigned, so they are emplaced
     std::vector<std::vector<std::optional<Handle>>> slots;
+    std::vector<std::vector<char>> refresh;  // slot marked by `6 s 1`: the next lock_shared assigns into the handle
     int ns;
+    template<class H>
+    static void acquire_into(std::optional<H>& h, LR& lr)
+    {
+        if constexpr (std::is_move_assignable_v<H>) *h = lr.lock_shared();
+        else h.emplace(lr.lock_shared());
+    }
     LRImpl(const vs::Case& c, bool from_rvalue): ns((int)(c.cfg.empty() ? 0 : c.cfg[0]))
     {
         std::memset(buf, (ns % 2) ? 0x01 : 0xFF, sizeof(LR));
@@ -108,6 +164,7 @@ struct LRImpl {
             lrp = new (buf) LR;  // default-initialisation: no parentheses, no braces
         slots.resize(c.progs.size());
         for (auto& s : slots) s.resize((size_t)ns);
+        refresh.assign(c.progs.size(), std::vector<char>((size_t)ns, 0));
     }
     LRImpl(const LRImpl&) = delete;
     ~LRImpl()
@@ -163,6 +220,24 @@ struct LRImpl {
         }
         if (a < 0 || a >= ns) return -1;
         auto& h = slots[(size_t)tid][(size_t)a];
+        char& rf = refresh[(size_t)tid][(size_t)a];
+        if (o[0] == 6 && flag == 1 && h && std::is_move_assignable_v<Handle>) {
+            rf = 1;  // keep the handle: the following lock_shared assigns over it
+            return 0;
+        }
+        if (o[0] == 1 && rf) {
+            rf = 0;
+            acquire_into(h, lr);
+            return 0;
+        }
+        if (o[0] == 6 && flag == 2 && h) {
+            std::thread helper([&h, tid] {
+                vs::Sched::me() = tid;  // same logical thread: its operations are scheduled and logged as tid's
+                h.reset();
+            });
+            helper.join();
+            return 0;
+        }
         switch (o[0]) {
             case 1: if (h) return -1; h.emplace(lr.lock_shared()); return 0;
             case 2: if (h) return -1; h.emplace(lr.try_lock_shared()); return 0;
@@ -180,12 +255,11 @@ struct LRImpl {
     {
 #ifndef VS_NO_PEEK
         LR& lr = *lrp;
-        out.push_back({lr.m_left.peek(), lr.m_right.peek(), (long)lr.m_readingLeft.vs_peek(),
-                       (long)lr.m_countingLeft.vs_peek(), (long)lr.m_leftReadCount.vs_peek(),
-                       (long)lr.m_rightReadCount.vs_peek(), vs::plan().faults});
+        out.push_back({lr.m_left.peek(), lr.m_right.peek(), peek_atomic(lr.m_readingLeft, 0),
+                       peek_atomic(lr.m_countingLeft, 0), peek_atomic(lr.m_leftReadCount, 0),
+                       peek_atomic(lr.m_rightReadCount, 0), vs::plan().faults});
         // the range of the reader counters (the model's are unbounded; it assumes int: LRModel.COUNTER_MAX)
-        out.push_back({(long)std::numeric_limits<decltype(lr.m_leftReadCount.vs_peek())>::max(),
-                       (long)std::numeric_limits<decltype(lr.m_rightReadCount.vs_peek())>::max()});
+        out.push_back({max_atomic(lr.m_leftReadCount, 0), max_atomic(lr.m_rightReadCount, 0)});
 #else
         (void)out;
 #endif
@@ -198,13 +272,15 @@ struct LRComp {
     explicit LRComp(const vs::Case& c)
     {
         std::vector<long> plan;
-        bool rv = false, tm = false;
+        bool rv = false, tm = false, as = false;
         for (size_t i = 1; i < c.cfg.size(); ++i) {
-            if (c.cfg[i] == -1) rv = true;
+            if (c.cfg[i] == -3) as = true;
+            else if (c.cfg[i] == -1) rv = true;
             else if (c.cfg[i] == -2) tm = true;
             else plan.push_back(c.cfg[i]);
         }
         vs::plan().reset(plan);
+        LPay::assign_throws() = as;
         if (tm) timed.reset(new LRImpl<vstd::timed_mutex>(c, rv));
         else plain.reset(new LRImpl<vstd::mutex>(c, rv));
     }
